@@ -8,7 +8,12 @@
     (`toInt` of the literal, see `literal_digits`, `literal_with_unit`) is the numeric comparison;
   * `bool_atom_spec` — a boolean column against true/false/1/0/yes/no/y/n in any letter case;
   * `text_eq_spec`, `text_eeq_spec` — `=`/`!=` without wildcard and `===`/`!==` are (in)equality of text;
-  * `between_inclusive` — BETWEEN is inclusive at both ends;
+  * `between_is_atom` / `between_inclusive` — `x between lo and hi` (x, lo, hi any arithmetic expressions) parses
+    to `x >= lo and x <= hi`, and that is true exactly when lo ≤ x ≤ hi: inclusive at both ends;
+    `not between` is the complement (`not_between_complement`);
+  * `comparison_of_expressions` — `e1 op e2` for any two arithmetic expressions (columns, literals, function
+    calls, sums …) and any operator spelling parses to one comparison node whose operands are evaluated on the
+    same entry (`column_vs_column`); an infix `not` negates the operator;
   * `quoted_is_text` — a quoted literal is parsed as text even when it spells a column or function
     name (D02 fixed);
   * `bool_literal_rejected` — an unparsable boolean literal is a status-2 error, not a crash (D03 fixed).
@@ -18,6 +23,8 @@
 -/
 import Fsel.Model.Eval
 import Fsel.Lemmas.Text
+import Fsel.Lemmas.ParseCond
+import Fsel.Props.C15
 
 namespace Fsel.C02
 open Fsel TextL
@@ -106,5 +113,192 @@ theorem quoted_is_text (bs minus : Bool) (s : Str) (r : List Lexem) :
 
 /-- the hypothesis is not vacuous: `'size'` and `'bin'` do spell a column and a function -/
 example : (Field.ofStr? (ofS "size")).isSome = true ∧ (Function.ofStr? (ofS "bin")).isSome = true := by decide
+
+/-! ### the shape of a comparison: BETWEEN, infix NOT, expression operands -/
+
+section shape
+open ParseL ParseC
+
+/-- the optional infix NOT (`x not like p`, `x not between a and b`) -/
+def infixNotToks (inf : Bool) : List Lexem := if inf then [.not_] else []
+
+theorem head_append_ne {a b : List Lexem} (h : a.head? ≠ some .not_) (hne : a ≠ []) : (a ++ b).head? ≠ some .not_ := by
+  cases a with
+  | nil => exact absurd rfl hne
+  | cons x xs => simpa using h
+
+theorem boolShorthand_cmp (bs : Bool) (l : Expr) (op : Op) (r : Expr) : boolShorthand bs (.cmp l op r) = .cmp l op r := by
+  cases bs <;> rfl
+
+theorem boolShorthand_logic (bs : Bool) (l : Expr) (op : LogicalOp) (r : Expr) : boolShorthand bs (.logic l op r) = .logic l op r := by
+  cases bs <;> rfl
+
+theorem infixNot_toks (inf : Bool) (r : List Lexem) (h : r.head? ≠ some .not_) :
+    (infixNot (infixNotToks inf ++ r)).1 = inf ∧ (infixNot (infixNotToks inf ++ r)).2.1 = r := by
+  cases inf with
+  | true => simp [infixNotToks, infixNot]
+  | false =>
+    simp only [infixNotToks, Bool.false_eq_true, if_false, List.nil_append]
+    cases r with
+    | nil => simp [infixNot, Rest.refl]
+    | cons t rs =>
+      cases t <;> first | (exact absurd rfl h) | exact ⟨rfl, rfl⟩
+
+/-- **`e1 [not] op e2`** for arbitrary arithmetic expressions is one comparison node -/
+theorem comparison_of_expressions (bs : Bool) (e1 e2 : E) (h1 : e1.WF bs) (h2 : e2.WF bs)
+    (hne : e1.toks ≠ []) (hn : e1.toks.head? ≠ some .not_)
+    (o : Str) (op : Op) (ho : Op.ofStr? o = some op) (hnb : (lowerStr o == ofS "between") = false) (inf : Bool) :
+    AtomCond bs (e1.toks ++ (infixNotToks inf ++ .op o :: e2.toks))
+      (.cmp e1.tree (if inf then op.negate else op) e2.tree) := by
+  intro k r hr
+  have hL := C15.arith_parse_correct bs e1 h1 (infixNotToks inf ++ .op o :: (e2.toks ++ r))
+    (by cases inf <;> simp [infixNotToks, StopAdd])
+  have hR := C15.arith_parse_correct bs e2 h2 r (stopCond_not_arith hr)
+  unfold parseCond
+  have hs := skipNots_nots k ((e1.toks ++ (infixNotToks inf ++ .op o :: e2.toks)) ++ r) (head_append_ne (head_append_ne hn hne) (by simp [hne]))
+  cases hsk : skipNots (nots k ++ ((e1.toks ++ (infixNotToks inf ++ .op o :: e2.toks)) ++ r)) with
+  | mk b t1 =>
+    rw [hsk] at hs
+    obtain ⟨t1v, t1p⟩ := t1
+    simp only at hs
+    obtain ⟨hb, ht⟩ := hs
+    subst hb; subst ht
+    simp only
+    have hassoc : (e1.toks ++ (infixNotToks inf ++ .op o :: e2.toks)) ++ r = e1.toks ++ (infixNotToks inf ++ .op o :: (e2.toks ++ r)) := by
+      simp [List.append_assoc]
+    generalize hgen : parseAddSub bs ((e1.toks ++ (infixNotToks inf ++ .op o :: e2.toks)) ++ r) = q
+    have hq : q.res = .ok e1.tree ∧ q.rest = infixNotToks inf ++ .op o :: (e2.toks ++ r) := by
+      rw [← hgen]
+      have := hL
+      rw [← hassoc] at this
+      exact this
+    obtain ⟨res, rst, le, pr⟩ := q
+    obtain ⟨g1, g2⟩ := hq
+    simp only at g1 g2
+    subst g1; subst g2
+    simp only
+    have hin := infixNot_toks inf (.op o :: (e2.toks ++ r)) (by simp)
+    generalize hgi : infixNot (infixNotToks inf ++ .op o :: (e2.toks ++ r)) = qi
+    rw [hgi] at hin
+    obtain ⟨nb, t3v, t3p⟩ := qi
+    simp only at hin
+    obtain ⟨i1, i2⟩ := hin
+    subst i1; subst i2
+    simp only [hnb, Bool.false_eq_true, if_false]
+    generalize hg2 : parseAddSub bs (e2.toks ++ r) = q2
+    rw [hg2] at hR
+    obtain ⟨res2, rst2, le2, pr2⟩ := q2
+    obtain ⟨g1, g2⟩ := hR
+    simp only at g1 g2
+    subst g1; subst g2
+    simp only [Op.fromWithNot, ho, boolShorthand_cmp]
+    cases nb <;> cases hpar : parity k <;> simp [Expr.negate]
+
+/-- the tree of `x between lo and hi` -/
+def betweenTree (x lo hi : Expr) : Expr := .logic (.cmp x .Gte lo) .And (.cmp x .Lte hi)
+/-- the tree of `x not between lo and hi` -/
+def notBetweenTree (x lo hi : Expr) : Expr := .logic (.cmp x .Lt lo) .Or (.cmp x .Gt hi)
+
+theorem not_between_complement (x lo hi : Expr) : (betweenTree x lo hi).negate = notBetweenTree x lo hi := by
+  simp [betweenTree, notBetweenTree, Expr.negate, LogicalOp.dual, Op.negate]
+
+/-- **`x [not] between lo and hi`** parses to `x >= lo and x <= hi` (resp. `x < lo or x > hi`) -/
+theorem between_is_atom (bs : Bool) (x lo hi : E) (hx : x.WF bs) (hlo : lo.WF bs) (hhi : hi.WF bs)
+    (hne : x.toks ≠ []) (hn : x.toks.head? ≠ some .not_) (o : Str) (hb : (lowerStr o == ofS "between") = true) (inf : Bool) :
+    AtomCond bs (x.toks ++ (infixNotToks inf ++ .op o :: (lo.toks ++ .and_ :: hi.toks)))
+      (if inf then notBetweenTree x.tree lo.tree hi.tree else betweenTree x.tree lo.tree hi.tree) := by
+  intro k r hr
+  have hL := C15.arith_parse_correct bs x hx (infixNotToks inf ++ .op o :: (lo.toks ++ .and_ :: (hi.toks ++ r)))
+    (by cases inf <;> simp [infixNotToks, StopAdd])
+  have hM := C15.arith_parse_correct bs lo hlo (.and_ :: (hi.toks ++ r)) (by simp [StopAdd])
+  have hR := C15.arith_parse_correct bs hi hhi r (stopCond_not_arith hr)
+  unfold parseCond
+  have hs := skipNots_nots k ((x.toks ++ (infixNotToks inf ++ .op o :: (lo.toks ++ .and_ :: hi.toks))) ++ r)
+    (head_append_ne (head_append_ne hn hne) (by simp [hne]))
+  cases hsk : skipNots (nots k ++ ((x.toks ++ (infixNotToks inf ++ .op o :: (lo.toks ++ .and_ :: hi.toks))) ++ r)) with
+  | mk b t1 =>
+    rw [hsk] at hs
+    obtain ⟨t1v, t1p⟩ := t1
+    simp only at hs
+    obtain ⟨hb', ht⟩ := hs
+    subst hb'; subst ht
+    simp only
+    have hassoc : (x.toks ++ (infixNotToks inf ++ .op o :: (lo.toks ++ .and_ :: hi.toks))) ++ r =
+        x.toks ++ (infixNotToks inf ++ .op o :: (lo.toks ++ .and_ :: (hi.toks ++ r))) := by
+      simp [List.append_assoc]
+    generalize hgen : parseAddSub bs ((x.toks ++ (infixNotToks inf ++ .op o :: (lo.toks ++ .and_ :: hi.toks))) ++ r) = q
+    have hq : q.res = .ok x.tree ∧ q.rest = infixNotToks inf ++ .op o :: (lo.toks ++ .and_ :: (hi.toks ++ r)) := by
+      rw [← hgen]
+      have := hL
+      rw [← hassoc] at this
+      exact this
+    obtain ⟨res, rst, le, pr⟩ := q
+    obtain ⟨g1, g2⟩ := hq
+    simp only at g1 g2
+    subst g1; subst g2
+    simp only
+    have hin := infixNot_toks inf (.op o :: (lo.toks ++ .and_ :: (hi.toks ++ r))) (by simp)
+    generalize hgi : infixNot (infixNotToks inf ++ .op o :: (lo.toks ++ .and_ :: (hi.toks ++ r))) = qi
+    rw [hgi] at hin
+    obtain ⟨nb, t3v, t3p⟩ := qi
+    simp only at hin
+    obtain ⟨i1, i2⟩ := hin
+    subst i1; subst i2
+    simp only [hb, if_true]
+    generalize hg2 : parseAddSub bs (lo.toks ++ .and_ :: (hi.toks ++ r)) = q2
+    rw [hg2] at hM
+    obtain ⟨res2, rst2, le2, pr2⟩ := q2
+    obtain ⟨g1, g2⟩ := hM
+    simp only at g1 g2
+    subst g1; subst g2
+    simp only
+    generalize hg3 : parseAddSub bs (hi.toks ++ r) = q3
+    rw [hg3] at hR
+    obtain ⟨res3, rst3, le3, pr3⟩ := q3
+    obtain ⟨g1, g2⟩ := hR
+    simp only at g1 g2
+    subst g1; subst g2
+    simp only [boolShorthand_logic]
+    cases nb <;> cases hpar : parity k <;>
+      simp [betweenTree, notBetweenTree, Expr.negate, LogicalOp.dual, Op.negate]
+
+end shape
+
+theorem and_beq_and : (LogicalOp.And == LogicalOp.And) = true := rfl
+
+/-- **BETWEEN is inclusive at both ends**: for an integer-valued left side `a` and integral bounds `n`, `m`,
+    `x between lo and hi` holds of the entry exactly when n ≤ a ≤ m -/
+theorem between_inclusive (cx : EvalCtx) (e : Entry) (cache : RxCache) (x lo hi : Expr)
+    (fv vlo vhi : Variant) (m1 m2 m3 : Memo) (a n m : Int)
+    (hx : columnValue cx (some e) [] x = .ok (fv, m1))
+    (hlo : columnValue cx (some e) [] lo = .ok (vlo, m2))
+    (hhi : columnValue cx (some e) [] hi = .ok (vhi, m3))
+    (hty : fv.ty = .int) (ha : fv.toInt = a) (hfx : fv.exact = true)
+    (hvl : vlo.exact = true) (hil : vlo.toFloat.fractNonZero = false) (hn : vlo.toInt = n)
+    (hvh : vhi.exact = true) (hih : vhi.toFloat.fractNonZero = false) (hm : vhi.toInt = m) :
+    conforms cx e cache (betweenTree x lo hi) = .ok (.val (decide (n ≤ a ∧ a ≤ m)), cache) := by
+  have c1 := int_atom_spec cx.cfg.today cache fv vlo .Gte a n (decide (a ≥ n)) hty ha hfx hvl hil hn rfl
+  have c2 := int_atom_spec cx.cfg.today cache fv vhi .Lte a m (decide (a ≤ m)) hty ha hfx hvh hih hm rfl
+  simp only [betweenTree, conforms, hx, hlo, hhi, c1, c2]
+  by_cases h1 : n ≤ a <;> by_cases h2 : a ≤ m <;> simp [h1, h2, CmpRes.and, and_beq_and]
+
+/-- `column OP column` compares the two attributes of the same entry: both operands are evaluated on `e`,
+    each with a fresh cache, and handed to the typed comparison -/
+theorem column_vs_column (cx : EvalCtx) (e : Entry) (cache : RxCache) (f g : Field) (op : Op) (fv gv : Variant) (m1 m2 : Memo)
+    (hf : columnValue cx (some e) [] (.field false f) = .ok (fv, m1))
+    (hg : columnValue cx (some e) [] (.field false g) = .ok (gv, m2)) :
+    conforms cx e cache (.cmp (.field false f) op (.field false g)) = compareValues cx.cfg.today cache fv op gv := by
+  simp only [conforms, hf, hg]
+
+/-- `size between 10 and 20`, `size not between 10 and 20`, `size >= hardlinks` are instances (hypotheses met) -/
+example :
+    let sz : ParseL.E := .mk (.mk (.atom [.raw (ofS "size")] (.field false .Size)) .nil) .nil
+    let hl : ParseL.E := .mk (.mk (.atom [.raw (ofS "hardlinks")] (.field false .Hardlinks)) .nil) .nil
+    sz.WF true ∧ hl.WF true ∧ sz.toks ≠ [] ∧ sz.toks.head? ≠ some .not_ ∧ Op.ofStr? (ofS ">=") = some .Gte := by
+  refine ⟨?_, ?_, by decide, by decide, by decide⟩
+  · simp only [ParseL.E.WF, ParseL.T.WF, ParseL.F.WF, ParseL.TTail.WF, ParseL.ETail.WF]
+    exact ⟨⟨C15.atom_column true _ _ (by decide), trivial⟩, trivial⟩
+  · simp only [ParseL.E.WF, ParseL.T.WF, ParseL.F.WF, ParseL.TTail.WF, ParseL.ETail.WF]
+    exact ⟨⟨C15.atom_column true _ _ (by decide), trivial⟩, trivial⟩
 
 end Fsel.C02
